@@ -58,7 +58,7 @@ impl<R: Read + Seek> Mp4Reader<R> {
                     moov = Some(MoovBox::read_box(&mut reader, s)?);
                 }
                 BoxType::MoofBox => {
-                    let moof_offset = reader.stream_position()? - 8;
+                    let moof_offset = current;
                     let moof = MoofBox::read_box(&mut reader, s)?;
                     moofs.push(moof);
                     moof_offsets.push(moof_offset);
@@ -161,7 +161,7 @@ impl<R: Read + Seek> Mp4Reader<R> {
                     skip_box(&mut reader, s)?;
                 }
                 BoxType::MoofBox => {
-                    let moof_offset = reader.stream_position()? - 8;
+                    let moof_offset = current;
                     let moof = MoofBox::read_box(&mut reader, s)?;
                     moofs.push(moof);
                     moof_offsets.push(moof_offset);
